@@ -421,6 +421,37 @@ def buildable(env, op, v):
     return v
 
 
+AMBIENTS = [None, "overload", "overload_tp", "overload_nocp", "vp_none", "vp_ort", "warn_none", "warn_outputs"]
+
+
+def ambient_context(env: Env, name, op):
+    """The scoped setting under which the constructor is called (public `spox._future` managers)."""
+    import contextlib
+
+    if name is None:
+        return contextlib.nullcontext()
+    try:
+        import spox._future as fut
+
+        if name == "overload":
+            return fut.operator_overloading(op)
+        if name == "overload_tp":
+            return fut.operator_overloading(op, type_promotion=True, constant_promotion=True)
+        if name == "overload_nocp":
+            return fut.operator_overloading(op, type_promotion=False, constant_promotion=False)
+        if name == "vp_none":
+            return fut.value_prop_backend(fut.ValuePropBackend.NONE)
+        if name == "vp_ort":
+            return fut.value_prop_backend(fut.ValuePropBackend.ONNXRUNTIME)
+        if name == "warn_none":
+            return fut.type_warning_level(fut.TypeWarningLevel.NONE)
+        if name == "warn_outputs":
+            return fut.type_warning_level(fut.TypeWarningLevel.OUTPUTS)
+    except Exception as e:  # noqa: BLE001
+        raise Unobservable(f"scoped setting {name} not available: {type(e).__name__}: {e}") from e
+    raise Unobservable(f"unknown ambient setting {name}")
+
+
 def run_real(env: Env, case, steps=()):
     """Call the real constructor of `case`; returns the observation dict."""
     np = env.np
@@ -458,8 +489,9 @@ def run_real(env: Env, case, steps=()):
     for _rep in range(case.get("repeat", 1)):  # the same call again, with the very same callback objects
         before = dict(counters)
         n_spy = len(env.spy)
+        amb = ambient_context(env, case.get("ambient"), op)
         try:
-            with warnings.catch_warnings():
+            with warnings.catch_warnings(), amb:
                 warnings.simplefilter("ignore")
                 if ctor == "if_":
                     outs = f(outer["cond"], then_branch=cbs["then_branch"], else_branch=cbs["else_branch"])
@@ -868,6 +900,8 @@ def finish_case(case, rng, container=None):
         if rng.random() < 0.6 and k_ > 0:
             attrs["scan_output_axes"] = [rng.choice([0, 0, 1, -1]) for _ in range(k_)]
         case["scan_attrs"] = attrs
+    if "ambient" not in case:
+        case["ambient"] = rng.choice(AMBIENTS[1:]) if rng.random() < 0.35 else None
     if ctor != "if_" and "rel" not in case:
         case["rel"] = rng.choice(RELATIONS) if rng.random() < 0.6 else "same"
     cont = container or rng.choice(["list", "list", "tuple", "gen", "map", "dictkeys"])
@@ -1004,6 +1038,29 @@ def gen_cases(ck, info):
                 c = dict(rng.choice(sub))
                 c["cbs"] = {"body": dict(c["cbs"]["body"], container=cont)}
                 cases.append(c)
+    # ---- long operand lists (9-13 operands, pairwise different types): argument i is typed for position i
+    dts = [F32, I64, I32, F64, BOOL]
+    many_tensors = [T(dts[i % 5], (i + 1,) if i % 3 else (i + 1, 2)) for i in range(14)]
+    many_mixed = [({"seq": t} if i % 4 == 1 else ({"opt": t} if i % 4 == 3 else t)) for i, t in enumerate(many_tensors)]
+    for mod in defs.get("loop", []):
+        for n_ in ck.pick([9, 11, 13], [9, 10, 11, 12, 13, 14]):
+            for pool_ in (many_tensors, many_mixed):
+                car = list(pool_[:n_])
+                rng.shuffle(car)
+                cases.append(finish_case({"mod": mod, "ctor": "loop", "lists": {"v_initial": car}, "k_extra": 0}, rng))
+    for mod in defs.get("scan", []):
+        for n_ in ck.pick([11, 13], [10, 11, 12, 13, 14]):
+            ops = list(many_tensors[:n_])
+            rng.shuffle(ops)
+            for m_ in sorted({0, 1, n_ // 2, n_ - 1, n_}):
+                cases.append(finish_case({"mod": mod, "ctor": "scan", "lists": {"initial_state_and_scan_inputs": ops},
+                                          "ints": {"num_scan_inputs": m_}, "axes": None, "k_extra": 1}, rng))
+    for mod in defs.get("sequence_map", []):
+        for n_ in ck.pick([10, 12], [9, 10, 11, 12, 13]):
+            ex = [({"seq": t} if i % 2 else t) for i, t in enumerate(many_tensors[:n_])]
+            rng.shuffle(ex)
+            cases.append(finish_case({"mod": mod, "ctor": "sequence_map", "singles": {"input_sequence": rng.choice(SEQS)},
+                                      "lists": {"additional_inputs": ex}, "k_extra": 1}, rng))
     # ---- the same callable objects again: a second identical constructor call; one callable in both If roles
     base = [c for c in cases if prescription(c) is not None and all_good(c) and "repeat" not in c]
     for mod_ctor in sorted({(c["mod"], c["ctor"]) for c in base}):
@@ -1051,6 +1108,26 @@ def gen_cases(ck, info):
                 cbs[r] = {"beh": "hasNonVar", "n": 3, "bad": bad, "pos": pos,
                           "outer": ["list", "tuple", "gen"][(pos + len(bad)) % 3]}
                 c["cbs"] = cbs
+                cases.append(c)
+        # the verdict on a malformed result must not depend on the scoped settings in force at the call
+        for amb in AMBIENTS[1:]:
+            for bad in ["int", "float", "none", "str", "listOfVars", "tupleOfVars", "emptyList"]:
+                c = dict(rng.choice(sub))
+                roles = list(c["cbs"])
+                cbs = {r2: dict(c["cbs"][r2]) for r2 in roles}
+                r = rng.choice(roles)
+                cbs[r] = {"beh": "hasNonVar", "n": rng.randrange(1, 4), "bad": bad, "pos": rng.randrange(3),
+                          "outer": rng.choice(["list", "tuple", "gen"])}
+                c["cbs"] = cbs
+                c["ambient"] = amb
+                cases.append(c)
+            for variant in range(4):  # bare scalars / None / a single Var as the whole result
+                c = dict(rng.choice(sub))
+                roles = list(c["cbs"])
+                cbs = {r2: dict(c["cbs"][r2]) for r2 in roles}
+                cbs[rng.choice(roles)] = {"beh": "nonIterable", "n": 1, "variant": variant}
+                c["cbs"] = cbs
+                c["ambient"] = amb
                 cases.append(c)
         # all-Var results in unusual containers: they count
         for cont in ["dict", "set", "ndarray", "varsubclass"]:
@@ -1339,7 +1416,7 @@ def _run(ck: core.Check, env: Env, info):
         model = [None] * len(cases)
 
     stats = {"ctor": {}, "stage": {}, "model_err": 0, "with_steps": 0, "step_errors": {}, "containers": {},
-             "behaviours": {}, "max_operands": 0, "prescribed": 0, "relations": {}, "relations_constructed": {}}
+             "behaviours": {}, "ambient": {}, "max_operands": 0, "prescribed": 0, "relations": {}, "relations_constructed": {}}
     mismatches = 0
     unobservable = {}
     for case, steps, m in zip(cases, steps_of, model):
@@ -1353,7 +1430,7 @@ def _run(ck: core.Check, env: Env, info):
             continue
         nops = sum(len(v) for v in case.get("lists", {}).values())
         key = (case["mod"], case["ctor"], repr(case.get("lists")), repr(case.get("singles")), repr(case.get("ints")),
-               repr(case.get("axes")), repr(case.get("scan_attrs")), case.get("rel"), repr(sorted((r, c["beh"], c.get("n")) for r, c in case["cbs"].items())))
+               repr(case.get("axes")), repr(case.get("scan_attrs")), case.get("rel"), case.get("ambient"), repr(sorted((r, c["beh"], c.get("n")) for r, c in case["cbs"].items())))
         ck.count(key if (nops >= 1 or not all_good(case)) else None)
         stats["ctor"][case["ctor"]] = stats["ctor"].get(case["ctor"], 0) + 1
         stats["stage"][obs["stage"]] = stats["stage"].get(obs["stage"], 0) + 1
@@ -1363,6 +1440,8 @@ def _run(ck: core.Check, env: Env, info):
             if obs["stage"] == "done":
                 stats["relations_constructed"][rl] = stats["relations_constructed"].get(rl, 0) + 1
         stats["max_operands"] = max(stats["max_operands"], nops)
+        ak = str(case.get("ambient"))
+        stats["ambient"][ak] = stats["ambient"].get(ak, 0) + 1
         stats["prescribed"] += int(prescription(case) is not None)
         stats["with_steps"] += int(bool(obs["steps"]))
         for st, en in obs["step_errors"]:
@@ -1413,7 +1492,7 @@ def _run(ck: core.Check, env: Env, info):
         f"{len(POOL)} types (ranks 0-3, symbolic/unknown dims, unknown shape, sequences, optionals) "
         "[Loop: carried; Scan: tensors x every num_scan_inputs 0..len+1 x scan axes none/0/-1/1; SequenceMap: 3 "
         "sequence types x tensor/sequence extras] + seeded length-3 lists, unknown-typed and ill-kinded operands, "
-        "9 relations between the values a body feeds back and its arguments (same / identity / other constant dim / other rank / other dtype / unknown rank / swapped / outer-scope value / constant), 5 result containers, malformed callbacks (not callable / non-iterable / non-Var element / raising) and "
+        "lists of 9-14 pairwise differently typed operands, every case possibly inside a scoped setting (operator_overloading x3, value_prop_backend NONE/ORT, type_warning_level NONE/OUTPUTS) with a systematic sweep of malformed results under each, 9 relations between the values a body feeds back and its arguments (same / identity / other constant dim / other rank / other dtype / unknown rank / swapped / outer-scope value / constant), 5 result containers, malformed callbacks (not callable / non-iterable / non-Var element / raising) and "
         "unnatural result counts; non-trivial = at least one operand or a malformed callback; distinct by "
         "(module, constructor, operand types, num_scan_inputs, axes, callback behaviours)"
     )
